@@ -1,7 +1,17 @@
 (* Props/C16.v — property theorems only; proofs live in Proofs/C16*.v. *)
 From Coq Require Import List NArith ZArith Bool.
-From Cedar Require Import Lib.Bytes Lib.SymC16 Model.ClaimId Proofs.C16Str Proofs.C16Dec Proofs.C16Info Proofs.C16Main Proofs.C16Mint.
+From Cedar Require Import Lib.Bytes Lib.SymC16 Model.ClaimId Proofs.C16Str Proofs.C16Dec Proofs.C16Info Proofs.C16Main Proofs.C16Mint Proofs.C16Corrupt Proofs.C16Facts.
 Import ListNotations.
+
+(* The facts regenerated from /repo's source on every run (HKDF salt/info, key
+   length at every derivation site of the claim files and absence of any second
+   derivation there, the strings functions locating '#' / '[' / ']' in
+   ParseClaimIDStrict, the cipher-list delimiter rewrites, the file-transfer prefix,
+   the match-session identities, the secret length) are the ones the model was
+   written for. *)
+Theorem C16_sources_match : sources_match.
+Proof. exact sources_match_holds. Qed.
+Print Assumptions C16_sources_match.
 
 (* For ALL minting options, every secret free of '#' and ']' (every lowercase-hex
    secret is) and every clock: if MintClaimSession succeeds, ParseClaimIDStrict on
@@ -45,6 +55,21 @@ Theorem C16_other_secret_other_key : forall o secret now m claim' io sid' e' cmd
   e_key e' <> e_key (m_entry m).
 Proof. exact other_secret_other_key. Qed.
 Print Assumptions C16_other_secret_other_key.
+
+(* Single-character (indeed any same-length) corruption of the secret, arbitrary
+   bytes allowed (a corruption may introduce '#' or ']'): importing the corrupted
+   text either fails or registers a different key. *)
+Theorem C16_corrupted_secret : forall o secret now m secret' io,
+  mint o secret now = Ok m ->
+  length secret' = length secret -> secret' <> secret ->
+  exists info, export_info (mint_wire o now) = Ok info
+    /\ m_claim m = (m_sid m ++ ch_hash :: info) ++ secret
+    /\ match import_claim ((m_sid m ++ ch_hash :: info) ++ secret') io with
+       | Ok (_, e', _) => e_key e' <> e_key (m_entry m)
+       | _ => True
+       end.
+Proof. exact corrupted_secret. Qed.
+Print Assumptions C16_corrupted_secret.
 
 Theorem C16_filetransfer_same_key : forall o secret now m io,
   secret_ok secret -> mint o secret now = Ok m ->
